@@ -338,22 +338,38 @@ def py_call_src(form, uname, has_out, initial=None):
     raise KeyError(form)
 
 
-def run_real(E, setup_src, call_src, history_src=""):
+def rule_caches(E):
+    """the memoised unit rules of unyt.array (functions carrying `cache_clear` / `cache_info`)"""
+    import sys
+    mod = sys.modules[E.unyt_array.__module__]
+    return {n: f for n, f in vars(mod).items() if callable(getattr(f, "cache_clear", None)) and callable(getattr(f, "cache_info", None))}
+
+
+def run_real(E, setup_src, call_src, history_src="", probe=None):
     """execute on the real library: (status, exc name or result, {name: (before, after)}); `history_src` = the
     calls made before the call under test (they may not change the operands either)"""
     ns = dict(E.ns)
+    pf = None
+    if history_src:
+        # a history case starts from empty rule memos, like the model's `runHistory` from the empty state
+        caches = rule_caches(E)
+        for f in caches.values():
+            f.cache_clear()
+        pf = caches.get(probe)
     exec(setup_src, ns)
     objs = {n: ns[n] for n in ("a", "b", "o") if n in ns}
     before = {n: snap(E, v) for n, v in objs.items()}
     if history_src:
         with np.errstate(all="ignore"):
             exec(history_src, ns)
+    n0 = pf.cache_info().currsize if pf is not None else None
     try:
         with np.errstate(all="ignore"):
             res = eval(call_src, ns)
         st = ("ok", res)
     except Exception as e:  # noqa: BLE001
         st = ("err", e)
+    E.last_rule_delta = None if pf is None else pf.cache_info().currsize - n0
     after = {n: snap(E, v) for n, v in objs.items()}
     return st, objs, before, after
 
@@ -753,12 +769,14 @@ class Ufuncs:
                 for hl in self.history_lines(pre):
                     c["hist_head"] += hl + ["##"]
             lines.append(self.model_line(c))
-            st, objs, before, after = run_real(E, c["setup"], c["call"], c.get("history", ""))
+            st, objs, before, after = run_real(E, c["setup"], c["call"], c.get("history", ""), self.registry.get(uname))
+            c["rule_delta"] = E.last_rule_delta if c.get("history") else None
             c["st"], c["objs"], c["before"], c["after"] = st, objs, before, after
         replies = self.ask(lines)
         # second pass: cases in which NumPy itself refuses the stripped call
         redo = []
         for c, rep in zip(cases, replies):
+            rep = self.split_state(c, rep)
             c["rep"] = rep
             if rep[0] == "ok" and rep[5] != "none":
                 # the second operand is cast to a float dtype before the kernel runs: ask NumPy again
@@ -772,10 +790,34 @@ class Ufuncs:
         if redo:
             reps2 = self.ask([self.model_line(c) for c in redo])
             for c, rep in zip(redo, reps2):
-                c["rep"] = rep
+                c["rep"] = self.split_state(c, rep)
         for c in cases:
             self.compare(c)
             self.oracle(c)
+
+    def split_state(self, c, rep):
+        """`c01.history` appends `rs=<n0>,<n1>`: entries of the model's unit-rule table before / after the last call"""
+        c["model_rs"] = None
+        if rep and rep[-1].startswith("rs="):
+            n0, n1 = rep[-1][3:].split(",")
+            c["model_rs"] = (int(n0), int(n1))
+            rep = rep[:-1]
+        return rep
+
+    def compare_state(self, c, where):
+        """the model's unit-rule table against the real `lru_cache` of the rule function of the call under test:
+        did the call add an entry (a miss whose result was stored) or not (a hit, a raise, or the rule never reached).
+        `_difference_units` calls the memoised `_preserve_units` itself (entries the model does not count): its own
+        cache is the one looked at."""
+        if c.get("rule_delta") is None or c.get("model_rs") is None:
+            return
+        self.chk.count("history:rule-memo-compared")
+        md = c["model_rs"][1] - c["model_rs"][0]
+        if md != c["rule_delta"]:
+            self.chk.disagree("c01.history.state", f"{where}: the call added {c['rule_delta']} entries to the rule memo of "
+                              f"{self.registry.get(c['dispatch_ufunc'])}, the model's table grew by {md} (sizes {c['model_rs']})")
+        else:
+            self.chk.count(f"history:rule-memo-{'miss' if md else 'hit-or-unreached'}")
 
     def model_line(self, c):
         tail = c["line_head"][1:] + [c["kernel_err"], c["kernel_shape"], c["wrap"]]
@@ -830,6 +872,8 @@ class Ufuncs:
             return
         chk.count("model:" + (rep[0] if rep[0] == "ok" else "err:" + rep[1]))
         where = f"{tag} fam={c['fam']} shp={c['shp']} call={c['call']!r} setup={c['setup']!r}"
+        if c.get("history"):
+            self.compare_state(c, where)
         if rep[0] == "err":
             if st[0] != "err":
                 chk.disagree("c01.dispatch", f"{where}: model raises {rep[1]}, implementation returned {str(st[1])[:60]!r}")
